@@ -230,11 +230,15 @@ async def install_requirements(hass, config_entry, pyscript_folder):
                 # If installed package is not the same version as the one we last installed,
                 # that means that the package is externally managed now so we shouldn't touch it
                 # and should remove it from our internal tracker
-                if (
-                    package in pyscript_installed_packages
-                    and pyscript_installed_packages[package] != pkg_installed_version
-                ):
-                    pyscript_installed_packages.pop(package)
+                if package in pyscript_installed_packages:
+                    recorded_version = pyscript_installed_packages[package]
+                    try:
+                        # the same version can be spelt differently (1.0 and 1.0.0)
+                        changed = Version(recorded_version) != Version(pkg_installed_version)
+                    except ValueError:
+                        changed = recorded_version != pkg_installed_version
+                    if changed:
+                        pyscript_installed_packages.pop(package)
                 continue
 
             # If installed package is not the same version as the one we last installed,
